@@ -86,6 +86,9 @@ var failures = []struct {
 	{"builtin-folded-argument", "q := int([1 + 2, !true])", ""},
 	{"operator-negative-literal-operand", "q := -1 / zero", "zero := 0"},
 	{"operator-folded-unary-operand", "q := !true % zero + ^5", "zero := 0"},
+	// two string literals folded into one by the optimizer, as the operand the failing operator starts with
+	{"operator-folded-string-operand", "q := \"it\" + \"em\" - zero", "zero := 0"},
+	{"index-folded-string-operand", "q := (\"a\" + \"b\")[five]", "five := 5"},
 	// unary operators fail too; their operand is a plain variable (nothing else on the line has a position of its own)
 	{"unary-minus-variable", "q := -str", "str := \"s\""},
 	{"unary-xor-variable", "q := ^str", "str := \"s\""},
@@ -108,13 +111,16 @@ func callStmt(form int, callee string) string {
 		return "r := " + callee + "() + len(\"ab\") * 2"
 	case 5:
 		return "r := [len(\"ab\") * 2, " + callee + "()]"
-	default:
+	case 6:
 		// a negative literal (folded unary minus) is the first thing compiled after the call
 		return "r := [" + callee + "(), -1]"
+	default:
+		// folded string concatenation directly after the call
+		return "r := [" + callee + "(), \"<\" + \">\"]"
 	}
 }
 
-const nForms = 7
+const nForms = 8
 
 const nLayouts = 8
 
@@ -291,7 +297,7 @@ func run16(c *fw.Ctx) {
 	if c.Thorough() {
 		maxD = 6
 	}
-	c.Family("uniform-forms", fmt.Sprintf("d <= %d x %d failures x 7 forms x 8 layouts (blank, line and block comments incl. multi-line ones, raw strings over lines) x 3 positions x 4 styles", maxD, len(failures)))
+	c.Family("uniform-forms", fmt.Sprintf("d <= %d x %d failures x 8 forms x 8 layouts (blank, line and block comments incl. multi-line ones, raw strings over lines) x 3 positions x 4 styles", maxD, len(failures)))
 	for d := 0; d <= maxD; d++ {
 		for fi := range failures {
 			for form := 0; form < nForms; form++ {
